@@ -369,6 +369,16 @@ def judge(hist, obs, version, kind="base", persist="none"):
     prev = blank
     for at, (op, ob) in enumerate(zip(hist, obs)):
         k = op[0]
+        if k == "F":
+            from .gw import file_as_update
+            same = file_as_update(op)
+            if same is None:
+                op, k = ("T", sp.clock), "T"        # no effect at all
+                if ob.sent or ob.cbs or ob.state != prev.state or ob.ota != prev.ota:
+                    sp.flag("C10", "bad-file-had-effect", "update_fw with an unusable firmware file changed state "
+                            "or produced output", at)
+            else:
+                op, k = same, "U"
         exp_sent, exp_cbs = None, None
         concerned = None
         sleeping_before = {nid for nid, n in sp.nodes.items() if n.sleeping}
